@@ -10,7 +10,7 @@ def run(cmd, **kw): return subprocess.run(cmd, shell=True, stdout=subprocess.PIP
 res = {"dir": d, "at": time.strftime("%Y-%m-%d %H:%M:%S")}
 try:
     r = run("git -C /repo worktree add -q --detach %s HEAD" % wt); assert r.returncode == 0, r.stdout
-    env = "cd %s && PYTHONPATH=%s PYTHONHASHSEED=0 " % (wt, wt)
+    env = "cd %s && PYTHONPATH=%s CLOUDSYNC_TREE=%s CLOUDSYNC_SRC=%s PYTHONHASHSEED=0 " % (wt, wt, wt, wt)
     extra = ""
     r = run(env + "timeout 900 /venv/bin/python %s/demo.py" % d)
     if r.returncode != 0 and "AssertionError" in r.stdout and "cloudsync/__init__.py" in r.stdout:
